@@ -38,6 +38,7 @@ func main() {
 	list := flag.Bool("list", false, "list properties")
 	quiet := flag.Bool("q", false, "do not print per-rule summary")
 	dump := flag.Bool("all", false, "print every obligation")
+	variantID := flag.String("variant", "", "analyse the tree with one self-test variant applied in memory and print FAILKEY lines (never writes evidence)")
 	flag.Parse()
 
 	if *list {
@@ -89,8 +90,31 @@ func main() {
 		os.Exit(2)
 	}
 
-	l, err := loadRepo(*repo, nil)
+	var overlay map[string][]byte
+	if *variantID != "" {
+		vs, verr := loadVariants(*verif)
+		if verr != nil {
+			fmt.Println("ERROR:", verr)
+			os.Exit(2)
+		}
+		for _, v := range vs {
+			if v.ID == *variantID {
+				ov, ok := overlayFor(*repo, v)
+				if !ok {
+					fmt.Println("SKIPPED variant edit not locatable")
+					os.Exit(0)
+				}
+				overlay = ov
+			}
+		}
+		if overlay == nil {
+			fmt.Println("ERROR: unknown variant", *variantID)
+			os.Exit(2)
+		}
+	}
+	l, err := loadRepo(*repo, overlay)
 	c := newCtx(prop, tier, l, *verif)
+	c.variant = *variantID
 	c.quiet = *quiet
 	c.dump = *dump
 	if s, e := strconv.Atoi(os.Getenv("VERIF_SEED")); e == nil {
@@ -104,6 +128,10 @@ func main() {
 		c.L = &Loaded{Root: *repo}
 		c.doc("load", "the repository loads and type-checks with zero errors")
 		c.fail("load", "packages", "", err.Error())
+		if *variantID != "" {
+			c.printFailKeys()
+			os.Exit(0)
+		}
 		os.Exit(c.finish(onlyKey))
 	}
 	c.doc("load", "the repository loads and type-checks with zero errors")
@@ -116,6 +144,13 @@ func main() {
 	}
 	if l.Prog != nil {
 		c.analysed["ssa_functions_in_repo"] = len(l.RepoFuncs())
+	}
+	if c.variant != "" {
+		c.printFailKeys()
+		os.Exit(0)
+	}
+	if tier == "thorough" && onlyKey == "" {
+		selfValidate(c, *repo)
 	}
 	os.Exit(c.finish(onlyKey))
 }
